@@ -116,6 +116,16 @@ def rename_one(d, name, taken, bias=0.3):
                     and (pre or not (out[:2] in ("g_", "s_", "t_", "u_", "e_") or out.startswith("ft_"))):
                 return out
             out = pre
+        if attempt < 4 and not pre and len(body) >= 3 and body[0] in UP + "_" and all(c in UP or c in DIG or c == "_" for c in body) and d.bool(0.3):
+            # another upper-case name of the same length: underscores may sit elsewhere, also in front (`_BUF_MAX` <-> `XBUF_MAX`)
+            new = d.weighted([(3, d.choice(UP)), (2, "_")])
+            for _ in range(len(body) - 2):
+                new += d.weighted([(8, d.choice(UP)), (1, d.choice(DIG)), (1, "_")])
+            new += d.choice(UP)
+            while "__" in new:
+                new = new.replace("__", "_A", 1)
+            if new not in prog.KEYWORDS and new not in prog.SPECIAL_NAMES and new not in STD_NAMES and new not in taken and any(c in UP for c in new):
+                return new
         for c in name[len(pre):]:
             if c in LOW:
                 out += d.choice(LOW)
